@@ -153,6 +153,8 @@ def _work(args):
                 obs += W.obligations_management(case)
             if 'rounding' in ops:
                 obs += W.obligations_rounding(case)
+            if 'new' in ops:
+                obs += W.obligations_new(case)
         except Unsupported as e:
             out['unsupported'] = str(e)
             out['bounded'] = _bounded_fallback(modname, clsname, prop, tier)
@@ -181,6 +183,9 @@ def _work(args):
                                            'why': 'failing history of the real code found by bounded exploration'}
             out['recs'].append(r)
         if tier == 'thorough':
+            # second opinion from an independent solver build (z3 4.8.12 CLI) on a seeded sample of the discharged
+            # obligations: `sat` there for something the API build proved is an inconsistency (reported as broken)
+            out['second_opinion'] = _second_opinion(mine, int(os.environ.get('VERIF_SEED', '0') or 0))
             # consistency guard: the clauses the prover discharged, monitored on the real code over the
             # reachable abstract states of a small scope (bounded; see contracts/wrapper_explore.py)
             out['bounded'] = _bounded_fallback(modname, clsname, prop, tier)
@@ -188,6 +193,30 @@ def _work(args):
     except Exception:
         out['error'] = traceback.format_exc()
     return out
+
+
+def _second_opinion(obs, seed, n=25):
+    import random
+    import z3
+    from pyvc import smt
+    rnd = random.Random(seed)
+    pool = [o for o in obs if not z3.is_true(z3.simplify(o.goal))]
+    rnd.shuffle(pool)
+    res = {'checked': 0, 'agree_unsat': 0, 'unknown': 0, 'disagree': []}
+    for o in pool[:n]:
+        try:
+            text = smt.to_smt2(o)
+        except Exception:
+            continue
+        r = smt.z3_cli_check(text, timeout_s=20)
+        res['checked'] += 1
+        if r == 'unsat':
+            res['agree_unsat'] += 1
+        elif r == 'sat':
+            res['disagree'].append(o.name)
+        else:
+            res['unknown'] += 1
+    return res
 
 
 def _props_for_explorer(prop):
@@ -391,6 +420,17 @@ def check(prop, tier, seed, level_a_note=''):
             rep.violation(n, path, False)
         else:
             rep.undecided.append('%s: %s (%s)' % (n, r['res'], r['reason']))
+    second = {'checked': 0, 'agree_unsat': 0, 'unknown': 0, 'disagree': []}
+    for res in results:
+        so = res.get('second_opinion')
+        if so:
+            for k in ('checked', 'agree_unsat', 'unknown'):
+                second[k] += so[k]
+            second['disagree'] += so['disagree']
+    for n in second['disagree']:
+        # only meaningful if the first prover discharged it
+        if n in names and not names[n]['bad']:
+            rep.broken.append('solver disagreement: z3 4.8.12 (CLI) answers sat for %s, which z3 5.1 discharged' % n)
     # bounded stand-in (fallback for cases outside the supported subset; guard in thorough runs)
     bsum = {'cases': [], 'states': 0, 'transitions': 0, 'evaluations': 0, 'exhaustive': True, 'samples': []}
     for (casename, b, is_fallback) in bounded_runs:
@@ -454,6 +494,7 @@ def check(prop, tier, seed, level_a_note=''):
               'solver_ms_total': round(ms_total, 1), 'slow_queries': slow[:20],
               'samples': samples + bsum['samples'][:3], 'unsupported': unsupported,
               'bounded': bsum,
+              'second_opinion_z3_4_8_12_cli': second,
               'evaluations': bsum['evaluations'], 'distinct_nontrivial': bsum['states'],
               'rule': 'bounded part (labelled bounded, never counted as proved): one evaluation = one contract clause '
                       'monitored on one transition of the real code; distinct_nontrivial = distinct reachable abstract '
